@@ -115,7 +115,16 @@ def check_pu_capt(project: Project, oa, rep, rule="PU-CAPT"):
         self_name = params[0]
         evs = [ev for ev in s.events if ev.kind == "write" and ev.origin.is_arg and ev.origin.param == self_name
                and ev.origin.path]
-        if evs:
+        cls_name = fi.qualname.rsplit(".", 2)[-2]
+        if evs and cls_name.startswith("_"):
+            # a private helper class lives inside one public call: what its attributes may alias is followed from the
+            # construction site by the inter-procedural analysis, and a write that reaches caller data is reported at the
+            # public entry point (PU-ARGS)
+            n += 1
+            rep.discharged(rule, fi, fi.node, f"private helper class {cls_name}: in-place updates of its own attributes are "
+                                              "followed from the construction site (PU-ARGS decides whether caller data is "
+                                              "reached)", nontrivial=True)
+        elif evs:
             for ev in evs:
                 owner = project.functions.get(ev.func)
                 rep.refuted(rule, owner or fi, ev.node,
